@@ -236,6 +236,18 @@ def m_dup_folder_discard(f, case, viol):
             later = [m for m in mk if m > d]
             if later and not any(_quiet(it) for it in plan[d:later[0]]):
                 cands.add(P)
+    if ci:
+        # third form, pairs with a case-insensitive side only (thorough soak, C06 seed 7): the folder was made by BOTH users before the
+        # engine was quiet (two entries for one name) and is renamed later - even after a quiet point: the rename is applied to
+        # one of the two entries only and the other re-creates the old name.  Differences may show under the rename's other name.
+        for P in set(fold(u[3]) for u in ops if u[2] == "mkdir"):
+            mk = [(i, it) for i, it in enumerate(plan) if it and it[0] == "U" and it[2] == "mkdir" and fold(it[3]) == P]
+            if len(set(it[1] for _, it in mk)) == 2 and not any(_quiet(x) for x in plan[mk[0][0]:mk[-1][0]]):
+                for it in plan[mk[-1][0]:]:
+                    if it and it[0] == "U" and it[2] == "rename_dir" and P in (fold(it[3]), fold(it[4])):
+                        cands.add(P)
+                        cands.add(fold(it[3]))
+                        cands.add(fold(it[4]))
     if not cands:
         return False
     if viol["cls"] == "nonquiescent":
